@@ -58,6 +58,7 @@ type Contract struct {
 	Results            []Param
 	QualName           string // for externs on package functions: "strings.TrimPrefix"
 	FuncName           string
+	TypeParams         string // "[F File]" for generic functions, "" otherwise
 }
 
 // Param is a name/type pair from a contract header.
@@ -248,6 +249,9 @@ func (c *Contract) parseHeader() error {
 	fd := f.Decls[0].(*ast.FuncDecl)
 	text := func(n ast.Node) string { return src[fset.Position(n.Pos()).Offset:fset.Position(n.End()).Offset] }
 	c.FuncName = fd.Name.Name
+	if fd.Type.TypeParams != nil {
+		c.TypeParams = "[" + src[fset.Position(fd.Type.TypeParams.Opening).Offset+1:fset.Position(fd.Type.TypeParams.Closing).Offset] + "]"
+	}
 	if fd.Recv != nil && len(fd.Recv.List) == 1 {
 		r := fd.Recv.List[0]
 		c.RecvType = text(r.Type)
